@@ -137,23 +137,35 @@ Section MultiLevelProofs.
     - intros m Hm. unfold G, MultiLevel.restrict_to, Transfer.restrict. cbn [Gtau]. split; intros H; discriminate H.
   Qed.
 
-  (* prolongation of an unchanged coarse level leaves the fine level unchanged *)
+  (* prolongation of an unchanged coarse level leaves the fine level unchanged — values-only prolongation (prolong)
+     and prolongation of values and right-hand sides (prolong_f, finter) alike *)
   Lemma prolong_same T Lf Lc (G : @coarse K X) (sc : lstate) (s : lstate) :
     xfer_ok T Lf Lc -> feval_ext (lfeval Lf) ->
     consistent kadd kmul (lM Lf) (ldt Lf) t0 (lnodes Lf) (lfeval Lf) (fst s) (snd s) ->
     (forall m, 1 <= m <= lM Lc -> forall y, fst sc m y = Guold G m y) ->
+    (forall m, 1 <= m <= lM Lc -> forall p y, snd sc m p y = Gfold G m p y) ->
     let G' := {| Gu := fst sc; Gf := snd sc; Gtau := Gtau G; Guold := Guold G; Gfold := Gfold G |} in
     same Lf (prolong_from T Lf Lc G' s) s.
   Proof.
-    intros (_ & _ & _ & _ & Psub & Pext & _) Hext Hcons Hsc G'.
+    intros (_ & _ & _ & _ & Psub & Pext & _) Hext Hcons Hsc Hscf G'.
     assert (Hu : forall n x, prolong_u kadd kmul ksub (lM Lc) (xPs T) (xPcoll T) G' (fst s) n x = fst s n x).
     { apply (prolong_zero_correction kO kI kadd kmul ksub kopp Rth (lM Lc) (xPs T) (xPcoll T) Psub Pext).
       intros m Hm y. cbn [Gu Guold G']. apply Hsc. exact Hm. }
-    split.
-    - intros m _ x. unfold MultiLevel.prolong_from, prolong. cbn [fst]. apply Hu.
-    - intros m Hm p x. unfold MultiLevel.prolong_from, prolong. cbn [snd].
-      replace (Nat.eqb m 0) with false by (symmetry; apply Nat.eqb_neq; lia).
-      rewrite (Hcons m Hm). apply Hext. intros y. apply Hu.
+    unfold MultiLevel.prolong_from. destruct (xfinter T).
+    - split.
+      + intros m _ x. unfold prolong_f. cbn [fst]. apply Hu.
+      + intros m Hm p x. unfold prolong_f. cbn [snd].
+        replace (Nat.eqb m 0) with false by (symmetry; apply Nat.eqb_neq; lia).
+        rewrite (accum_spec kO kI kadd kmul ksub kopp Rth).
+        rewrite (sumf_ext kO kadd _ (fun _ => kO) 1 (lM Lc)).
+        * rewrite (sumf_zero kO kI kadd kmul ksub kopp Rth). ring.
+        * intros j Hj. unfold vscale. rewrite Psub. cbn [Gf Gfold G'].
+          rewrite (Pext (snd sc j p) (Gfold G j p)) by (intros y; apply Hscf; lia). ring.
+    - split.
+      + intros m _ x. unfold prolong. cbn [fst]. apply Hu.
+      + intros m Hm p x. unfold prolong. cbn [snd].
+        replace (Nat.eqb m 0) with false by (symmetry; apply Nat.eqb_neq; lia).
+        rewrite (Hcons m Hm). apply Hext. intros y. apply Hu.
   Qed.
 
   (* ------------------------------------------------------------------ the theorem *)
@@ -169,12 +181,14 @@ Section MultiLevelProofs.
       assert (Hs1 : holds_solution L tau s1) by exact (holds_solution_same L tau s s1 Hext Hs H1).
       set (G := restrict_to T L Lc tau s1).
       pose proof (restrict_holds T L Lc tau s1 Hx Hs1) as HG. cbv zeta in HG. fold G in HG.
-      pose proof (IH Lc (Gtau G) (Gu G, Gf G) Hrest HG) as [Hc _].
+      pose proof (IH Lc (Gtau G) (Gu G, Gf G) Hrest HG) as [Hc Hcf].
       set (sc := vcycle Lc rest (Gtau G) (Gu G, Gf G)) in *.
       assert (Hsc : forall m, 1 <= m <= lM Lc -> forall y, fst sc m y = Guold G m y).
       { intros m Hm y. rewrite (Hc m) by lia. cbn [fst]. unfold G, MultiLevel.restrict_to, Transfer.restrict. cbn [Gu Guold]. reflexivity. }
+      assert (Hscf : forall m, 1 <= m <= lM Lc -> forall p y, snd sc m p y = Gfold G m p y).
+      { intros m Hm p y. rewrite (Hcf m Hm). cbn [snd]. unfold G, MultiLevel.restrict_to, Transfer.restrict. cbn [Gf Gfold]. reflexivity. }
       destruct Hs1 as (Hcons1 & Hcoll1 & Htau1).
-      pose proof (prolong_same T L Lc G sc s1 Hx Hext Hcons1 Hsc) as H2. cbv zeta in H2.
+      pose proof (prolong_same T L Lc G sc s1 Hx Hext Hcons1 Hsc Hscf) as H2. cbv zeta in H2.
       set (s2 := prolong_from T L Lc {| Gu := fst sc; Gf := snd sc; Gtau := Gtau G; Guold := Guold G; Gfold := Gfold G |} s1) in *.
       assert (Hs2 : holds_solution L tau s2).
       { apply (holds_solution_same L tau s1 s2 Hext); [split; [|split]; assumption | exact H2]. }
